@@ -152,9 +152,22 @@ SparsePost(s) ==
              IF T[p] # None THEN (IF p \in Cone[s] THEN {T[p]} ELSE {None})
              ELSE IF Tracked(p) THEN {None} ELSE {W[p]}]]
 
+\* ------------------------------------------------------------------ C29: calls that must be refused outright
+\* invalid options, a commit or branch that does not exist, a branch name that is taken: the call returns an
+\* error and nothing at all changes (HEAD, branches, index, files).
+BadOps == {"reset-hard-badsparse", "reset-merge-badsparse", "reset-keep-badsparse", "reset-mixed-badsparse",   \* SparseDirs names no directory of T
+           "reset-hard-missing",            \* reset to a commit id that is not in the repository
+           "checkout-create-existing",      \* checkout -b <a branch that exists>
+           "checkout-missing-branch",       \* checkout <no such branch>
+           "checkout-branch-and-hash",      \* branch and hash together without Create
+           "checkout-force-missing-hash"}   \* checkout -f <a commit id that is not in the repository>
+RefusePost == [verdict |-> "refuse", head |-> "H", idx |-> Single(I), wt |-> Single(W)]
+\* resets to HEAD itself (the commit option left empty): the same rules as a reset to a commit with T = H
+HeadOps == {"reset-merge-head", "reset-keep-head"}
+
 \* ------------------------------------------------------------------ table
 AllOps == {"reset-hard", "checkout-force", "checkout-force-create", "checkout", "checkout-twin", "checkout-create", "reset-merge", "reset-keep",
-           "add", "add-all", "remove", "move", "clean", "commit", "status", "sparse"}
+           "add", "add-all", "remove", "move", "clean", "commit", "status", "sparse", "pull"} \cup BadOps \cup HeadOps
 
 Args(o) == CASE o \in {"add", "remove"} -> {<<p>> : p \in Paths}
              [] o = "move" -> {<<pq[1], pq[2]>> : pq \in {x \in Paths \X Paths : x[1] # x[2]}}
@@ -172,8 +185,11 @@ ExpectRaw(o, a) ==
     [] o = "checkout"    -> SoftSwitch("checkout")
     \* switching to another branch on the SAME commit / creating a branch at HEAD: T = H, nothing to write
     [] o \in {"checkout-twin", "checkout-create"} -> SoftSwitch("checkout")
-    [] o = "reset-keep"  -> SoftSwitch("keep")
-    [] o = "reset-merge" -> SoftSwitch("merge")
+    [] o \in {"reset-keep", "reset-keep-head"}   -> SoftSwitch("keep")
+    [] o \in {"reset-merge", "reset-merge-head"} -> SoftSwitch("merge")
+    \* pull = fetch + fast-forward of the current branch to T (a descendant of H): git's two-way merge, as checkout
+    [] o = "pull"        -> SoftSwitch("checkout")
+    [] o \in BadOps      -> RefusePost
     [] o = "add"         -> AddPost({a[1]}, FALSE)
     [] o = "add-all"     -> AddPost(Paths, TRUE)
     [] o = "remove"      -> RemovePost(a[1])
@@ -188,7 +204,8 @@ Expect(o, a) == IF o \in {"add", "remove", "move"} /\ \E i \in 1..Len(a) : Entan
 
 \* pre-states: H, I, T any consistent trees; W any consistent worktree.  Operations that do
 \* not look at T get T = H so that the table has no duplicate rows.
-UsesT(o) == o \in {"reset-hard", "checkout-force", "checkout-force-create", "checkout", "reset-merge", "reset-keep", "sparse"}
+UsesT(o) == o \in {"reset-hard", "checkout-force", "checkout-force-create", "checkout", "reset-merge", "reset-keep", "sparse", "pull",
+                    "reset-hard-badsparse", "reset-merge-badsparse", "reset-keep-badsparse", "reset-mixed-badsparse", "checkout-branch-and-hash"}
 Init == /\ H \in Trees /\ I \in Trees /\ W \in Trees /\ T \in Trees
         /\ op \in Ops /\ arg \in Args(op)
         /\ (~UsesT(op) => T = H)
@@ -222,5 +239,6 @@ AddAllMatches == op = "add-all" => \A p \in Paths : exp.idx[p] = {W[p]}
 StatusCleanIff == op = "status" => \A p \in Paths :
                  (exp.st[p] = <<" ", " ">>) <=> (H[p] = I[p] /\ I[p] = W[p])
 \* every allowed post-tree set is non-empty; allowed trees stay D/F consistent when unique
+BadOptionsChangeNothing == op \in BadOps => exp.verdict = "refuse" /\ exp.idx = Single(I) /\ exp.wt = Single(W) /\ exp.head = "H"
 WellFormed == \A p \in Paths : exp.idx[p] # {} /\ exp.wt[p] # {}
 =============================================================================
